@@ -37,6 +37,7 @@ func runC04(c *Check, tier string) {
 	ruleNoPoolReentry(c, "R04m")
 	ruleMessagesCarryCopies(c, "R04n")
 	ruleAddBeforeSpawn(c, "R04o", "output", "caching", "execution", "dag", "worker", "loading")
+	rulePendingEntryReleased(c, "R04p", "caching", "caching/backends", "output", "output/handlers", "execution", "loading", "worker")
 	shareRule(c, "R04k", "every path to a cache hit passes the branch on which the looked-up target result is non-nil (the hit path dereferences it on a worker goroutine; same obligation as R13a)", 1, "R13a", func(sub *Check) { ruleR13a(sub, analyseGate(sub, "R13a")) }, func(k string) bool { return strings.Contains(k, "result-found") })
 }
 
